@@ -200,6 +200,16 @@ class SmtLibSolver(Solver): # TODO this class is defined twice in pysmt. Here an
         self._send_silent_command(SmtLibCommand(smtcmd.POP, [levels]))
 
     def get_value(self, item):
+        # A symbol that no assertion mentions is not declared in the
+        # solver, and declaring it now would leave the sat state (no
+        # get-value after a declaration). It is unconstrained: it
+        # takes the default value of model completion
+        unknown = [d for d in item.get_free_variables()
+                   if all(d not in dv for dv in self.declared_vars)]
+        if unknown:
+            defaults = EagerModel(assignment={}, environment=self.environment)
+            item = item.substitute(dict((d, defaults.get_value(d))
+                                        for d in unknown))
         self._send_command(SmtLibCommand(smtcmd.GET_VALUE, [item]))
         lst = self._get_value_answer()
         assert len(lst) == 1
